@@ -40,6 +40,9 @@ func c05Step(r *bsRec) int {
 }
 
 func c05Cost(r *bsRec) int64 {
+	if r.EffCost > 0 {
+		return r.EffCost
+	}
 	if r.Op.Kind == "lget" {
 		return r.LoadCost
 	}
